@@ -504,7 +504,71 @@ def check(run):
         run.count('restarts', len(o['restarts']))
         if o['harness']:
             run.count('harness_' + str(o['harness'])[:40])
+    check_refused_write(run)
+
+
+def check_refused_write(run, only=None):
+    """A storage that refuses ONE write (a value it cannot serialise, a transient I/O error): the
+    storage can then not hold the current state, but it must not go on holding an OUTDATED one - a
+    restart from it would restore a state the block has left (the entry is removed; the next
+    successful save brings it back)."""
+    for kind in ('input', 'counter'):
+        if only is not None and kind != only:
+            continue
+        obs = dict(snaps=[], harness=None)
+
+        class Flaky(dict):
+            fail_next = False
+
+            def __setitem__(self, key, value):
+                if key.startswith('<') and self.fail_next:
+                    self.fail_next = False
+                    raise OSError('storage is busy')
+                super().__setitem__(key, value)
+        store = Flaky()
+
+        async def main(loop, kind=kind, obs=obs, store=store):
+            edzed.reset_circuit()
+            circuit = edzed.get_circuit()
+            circuit.set_persistent_data(store)
+            blk = (edzed.Input('blk', initdef=1, persistent=True) if kind == 'input'
+                   else edzed.Counter('blk', initdef=1, persistent=True))
+            task = asyncio.create_task(circuit.run_forever())
+            await circuit.wait_init()
+            snap = lambda: [blk.output, store.get(blk.key, 'ABSENT')]
+            obs['snaps'].append(snap())                       # after init: saved
+            blk.event('put', value=2)
+            obs['snaps'].append(snap())                       # saved
+            store.fail_next = True
+            blk.event('put', value=3)                         # this write is refused
+            obs['snaps'].append(snap())
+            blk.event('put', value=4)
+            obs['snaps'].append(snap())                       # saved again
+            try:
+                await circuit.shutdown()
+            except BaseException:                             # noqa
+                pass
+            obs['snaps'].append(snap())
+        try:
+            vloop.run_virtual(main, wall_limit_s=10.0)
+        except BaseException as err:                          # noqa
+            obs['harness'] = repr(err)[:200]
+        finally:
+            edzed.reset_circuit()
+        run.add_case(dict(refused_write=kind), True)
+        run.count('refused_write')
+        ok = obs['harness'] is None and obs['snaps'] == [[1, 1], [2, 2], [3, 'ABSENT'], [4, 4], [4, 4]]
+        run.add_obligation(ok)
+        if not ok:
+            run.violation('monitor', dict(case=dict(refused_write=kind), observed=obs),
+                          f"{kind}: [output, stored state] after init / put 2 / put 3 with the write refused / put 4 / "
+                          f"stop = {obs['snaps']} (expected [[1, 1], [2, 2], [3, 'ABSENT'], [4, 4], [4, 4]]: no "
+                          f"outdated state is kept); harness: {obs['harness']}",
+                          clause='stale_state_after_refused_write', concrete=True)
 
 
 def replay(run, path):
+    _, case = common.load_replay_case(path)
+    if isinstance(case, dict) and 'refused_write' in case:
+        return common.directed_replay(run, path, lambda: check_refused_write(run, case['refused_write']))
     return common.std_replay(run, C06(), path)
